@@ -216,7 +216,12 @@ func src(n ast.Node) string {
 	if err := printer.Fprint(&b, fset, n); err != nil {
 		return fmt.Sprintf("<unprintable: %v>", err)
 	}
-	return strings.Join(strings.Fields(b.String()), " ")
+	out := strings.Join(strings.Fields(b.String()), " ")
+	// nodes spliced in by the pre-passes carry positions of other places; the printer then breaks argument and element
+	// lists over lines and closes them with a trailing comma
+	out = strings.ReplaceAll(out, ", )", ")")
+	out = strings.ReplaceAll(out, ", }", "}")
+	return out
 }
 
 func leanString(s string) string {
